@@ -475,15 +475,19 @@ impl LineProgram {
 
         if op_advance != 0 {
             // Using ConstAddPc can save a byte.
-            let (special_op_advance, const_add_pc) = if special + op_advance * line_range <= 255 {
+            // Saturate: a product that overflows cannot fit in a special opcode either.
+            let (special_op_advance, const_add_pc) = if special
+                .saturating_add(op_advance.saturating_mul(line_range))
+                <= 255
+            {
                 (op_advance, false)
             } else {
                 let op_range = (255 - special_base) / line_range;
                 (op_advance - op_range, true)
             };
 
-            let special_op = special_op_advance * line_range;
-            if special + special_op <= 255 {
+            let special_op = special_op_advance.saturating_mul(line_range);
+            if special.saturating_add(special_op) <= 255 {
                 special += special_op;
                 use_special = true;
                 if const_add_pc {
